@@ -35,39 +35,44 @@ sexp sexp_json_write_exception (sexp ctx, sexp self, const char* msg, sexp obj) 
 }
 
 sexp json_read_number (sexp ctx, sexp self, sexp in) {
-  double res = 0, scale = 1;
-  int sign = 1, inexactp = 0, scale_sign = 1, ch;
+  /* collect the token and convert it in one step, so that fractions */
+  /* with exponents ("1.5e3", "1E+21") are accepted and the result is */
+  /* correctly rounded */
+  char buf[128];
+  double res;
+  int i = 0, inexactp = 0, ch;
   ch = sexp_read_char(ctx, in);
   if (ch == '+') {
     ch = sexp_read_char(ctx, in);
   } else if (ch == '-') {
+    buf[i++] = '-';
     ch = sexp_read_char(ctx, in);
-    sign = -1;
   }
-  for ( ; ch != EOF && isdigit(ch); ch = sexp_read_char(ctx, in))
-    res = res * 10 + ch - '0';
-  if (ch == '.') {
+  for ( ; ch != EOF && isdigit(ch) && i < 100; ch = sexp_read_char(ctx, in))
+    buf[i++] = ch;
+  if (ch == '.' && i < 100) {
     inexactp = 1;
-    for (ch = sexp_read_char(ctx, in); isdigit(ch); scale *= 10, ch = sexp_read_char(ctx, in))
-      res = res * 10 + ch - '0';
-    res /= scale;
-  } else if (ch == 'e') {
+    buf[i++] = '.';
+    for (ch = sexp_read_char(ctx, in); ch != EOF && isdigit(ch) && i < 100; ch = sexp_read_char(ctx, in))
+      buf[i++] = ch;
+  }
+  if ((ch == 'e' || ch == 'E') && i < 100) {
     inexactp = 1;
+    buf[i++] = 'e';
     ch = sexp_read_char(ctx, in);
-    if (ch == '+') {
+    if (ch == '+' || ch == '-') {
+      buf[i++] = ch;
       ch = sexp_read_char(ctx, in);
-    } else if (ch == '-') {
-      ch = sexp_read_char(ctx, in);
-      scale_sign = -1;
     }
-    for (scale=0; isdigit(ch); ch = sexp_read_char(ctx, in))
-      scale = scale * 10 + ch - '0';
-    res *= pow(10.0, scale_sign * scale);
+    for ( ; ch != EOF && isdigit(ch) && i < 120; ch = sexp_read_char(ctx, in))
+      buf[i++] = ch;
   }
+  buf[i] = 0;
   if (ch != EOF) sexp_push_char(ctx, ch, in);
+  res = strtod(buf, NULL);
   return (inexactp || fabs(res) > SEXP_MAX_FIXNUM) ?
-    sexp_make_flonum(ctx, sign * res) :
-    sexp_make_fixnum(sign * res);  /* always return inexact? */
+    sexp_make_flonum(ctx, res) :
+    sexp_make_fixnum((sexp_sint_t)res);  /* always return inexact? */
 }
 
 sexp json_read_literal (sexp ctx, sexp self, sexp in, char* name, sexp value) {
